@@ -166,6 +166,8 @@ ob("O-C14-cbor-pos", ["C14", "C05"], F, "c14_cbor_decode_positive", "CBOR decode
 for fmt, what, firsts in (("csv", "the RFC 4180 quoting (surrounding quotes, doubled inner quotes)", ("empty", "quote", "comma", "nl", "cr", "a")), ("tsv", "the TSV escaping (backslash-n, -r, -t, -0, -backslash)", ("empty", "bs", "tab", "nl", "cr", "nul", "n", "a"))):
     for f in firsts:
         ob(f"O-C13-{fmt}-reader-{f}", ["C13", "C14", "C05"], F, f"c13_{fmt}_reader_{f}", f"the real {fmt.upper()} field reader inverts {what}: for every field content of length <= 2 over the format's metacharacters and a letter (first character: {f}), ended by end of input, the separator or a newline, it returns exactly that content, stops at the terminator and consumes nothing else", [FM + f"read/tabular.rs::{fmt}_field", FM + "read/tabular.rs::field"], label="bounded", bound="field contents of length <= 2 over the metacharacter alphabet, three terminators; enumerated concretely", timeout=900)
+ob("O-C14-csv-rows-quoted", ["C14"], F, "c14_csv_rows_quoted_empty", "the real CSV row reader (read_csv / row / Field::is_empty / From<Field>) on the text `\"\"` - exactly what `[\"\"] | tocsv` writes - yields one row holding one empty string, not the end of input", [FM + "read/tabular.rs::row", FM + "read/tabular.rs::Field::is_empty", FM + "read/tabular.rs::read_csv"], label="point", kind="point")
+ob("O-C14-csv-rows-basic", ["C14"], F, "c14_csv_rows_basic", "the real CSV row reader on four texts made of empty and quoted-empty cells: empty text -> no row; a newline -> [null]; a comma -> [null, null]; two rows of quoted-empty / empty cells come back cell for cell (null vs the empty string kept apart)", [FM + "read/tabular.rs::row", FM + "read/tabular.rs::Field::is_empty", FM + "read/tabular.rs::read_csv"], label="point", kind="point")
 
 CFG = {
     "trusted_base": [
